@@ -28,7 +28,8 @@ pub enum T {
     File,
     Link(u8),
     Dir(u32, Vec<T>),
-    /// an entry that is neither file, directory nor symlink: 0 = FIFO, 1 = UNIX socket
+    /// an entry that is neither a plain private file, a directory nor a symlink: 0 = FIFO, 1 = UNIX
+    /// socket, 2 = a hard link to the canary file outside the layers directory
     Special(u8),
 }
 
@@ -45,6 +46,7 @@ fn leaf_types(level: usize) -> Vec<T> {
     }
     v.push(T::Special(0));
     v.push(T::Special(1));
+    v.push(T::Special(2));
     let _ = level;
     v
 }
@@ -112,6 +114,7 @@ fn put_tree(s: &mut Snapshot, prefix: &str, entries: &[T], root: &Path, depth: u
         match t {
             T::File => s.insert(&key, Node::File { mode: 0o444, data: b"x".to_vec() }),
             T::Link(k) => s.insert(&key, Node::Link { target: link_target(*k, root, depth, i) }),
+            T::Special(2) => s.insert(&key, Node::Other { what: "hardlink:outside/file".into() }),
             T::Special(k) => s.insert(&key, Node::Other { what: if *k == 0 { "fifo".into() } else { "socket".into() } }),
             T::Dir(m, kids) => {
                 s.insert(&key, Node::Dir { mode: *m });
@@ -327,7 +330,8 @@ impl Drop for Worker {
 
 fn only_benign(tree: &[T]) -> bool {
     tree.iter().all(|t| match t {
-        T::File | T::Special(_) => true,
+        T::File => true,
+        T::Special(k) => *k < 2,
         T::Link(k) => [0u8, 1, 7, 8, 9].contains(k),
         T::Dir(_, kids) => only_benign(kids),
     })
@@ -340,6 +344,8 @@ fn judge(case: &Case, op: &str, uid: u32, w: &mut Worker) -> (Vec<Viol>, String)
     let root = sc.path.clone();
     let before = world(case, &root);
     before.materialise(&root).expect("materialise");
+    // a hard link reads back as a regular file: compare with what is really on disk
+    let before = if before.0.values().any(|n| matches!(n, Node::Other { what } if what.starts_with("hardlink:"))) { Snapshot::take(&root).expect("snapshot") } else { before };
     if uid != 0 {
         chown_all(&root, uid);
         // the scratch root's parent must be traversable
@@ -481,7 +487,7 @@ pub fn run(args: &Args) {
     rep.cov("trees", cases.len() as u64);
     rep.cov("distinct_nontrivial", nontrivial);
     rep.cov("distinct_outcomes", json!(outcomes));
-    rep.cov("rule", "every multiset tree of <= N nodes over {file(0444), dir x modes {755,555,666,000} with children, FIFO, UNIX socket, 10 symlink kinds (inside file/dir, sibling layer dir/file, outside dir/file absolute and relative, dangling, self loop, pair loop)}, two levels, <= 3 entries per directory; plus layer path / a.toml being symlinks (a.toml also dangling), the layer addressed as `a/`, and a read-only (0555) layers directory (each with every <=2-node tree), and the layer as the only entry of a 0750 layers directory; each x 3 operations (uncached_layer over existing, cached_layer Delete, handle_layer Recreate) x {root, uid 65534 owner}; non-trivial = trees containing a directory or symlink, or a top-level variant");
+    rep.cov("rule", "every multiset tree of <= N nodes over {file(0444), dir x modes {755,555,666,000} with children, FIFO, UNIX socket, a hard link to the canary file outside (its mode and content must survive), 10 symlink kinds (inside file/dir, sibling layer dir/file, outside dir/file absolute and relative, dangling, self loop, pair loop)}, two levels, <= 3 entries per directory; plus layer path / a.toml being symlinks (a.toml also dangling), the layer addressed as `a/`, and a read-only (0555) layers directory (each with every <=2-node tree), and the layer as the only entry of a 0750 layers directory; each x 3 operations (uncached_layer over existing, cached_layer Delete, handle_layer Recreate) x {root, uid 65534 owner}; non-trivial = trees containing a directory or symlink, or a top-level variant");
     rep.cov("bound", json!({"max_nodes": budget, "levels": 2, "ops": OPS, "uids": [0, NOBODY]}));
     rep.cov("exhaustive", true);
     rep.sample(json!(cases[cases.len() / 2]));
